@@ -169,6 +169,14 @@ CLAIMED = {
             "triaged exceptions listed with reasons (numeric limits, operator names, pre-rendered fragments). Not decided: well-formedness "
             "of whole queries, server-side Unicode handling, read-back equality on a live server.",
             "DESIGN.md 6/C14"),
+    "C15": ("inventory of internal names in shared namespaces by name-position queries over the syntax tree (frame stores, alias / suffix keywords, CTE-capable view names) with a freshness-guard recogniser; name-pattern capture lint over column-name variables; distinctness of internal names (ast)",
+            "Structural necessary conditions of naming independence: every internal column / view name that shares a namespace with user names "
+            "is either made fresh against the user's names or is a listed finding (28 sites today, reproduced where the step runs here); "
+            "no executor step chooses columns by the shape of their names (endswith / startswith / regex / substring); internal names and "
+            "suffixes of one step cannot be confused with each other. A new unguarded internal name, or a renamed one, is reported.",
+            "Trusted: CTE names, frame column keys, aliases and join suffixes are the shared namespaces. Not decided: invariance of the data "
+            "under renaming at run time; names reserved by pandas / polars / the database.",
+            "DESIGN.md 6/C15"),
     "C27": ("def-use consumption of partition_by/order_by/reverse by each window realisation; flag partial evaluation; CFG effect ordering; index-clean typestate; per-term window coverage (ast)",
             "In Pandas, Polars and SQL the window is defined from all of partition_by, order_by and reverse with partition keys ahead "
             "of order keys and the right polarity; the sort precedes the windowed computation; Pandas captures positions before the "
